@@ -65,6 +65,16 @@ class Hand(twisted.internet.protocol.Protocol):
             + (msg.incarnation if msg.incarnation else '__all__')
             + ']'
         )
+        # a result belongs to the execution in flight only if it carries the
+        # stamp of the task message that was handed out for it; anything else
+        # is the result of work released before the last (re)load (or a
+        # duplicate) and must not be taken for the current execution
+        stamp = (msg.timing or {}).get('scheduled')
+        if done not in _busy or _handed.get(done, stamp) != stamp:
+            log.warning('Ignoring a result of %s that is not in flight', done)
+            return
+
+        _handed.pop(done, None)
         while 0 < _busy.count(done):
             _busy.remove(done)
             if done in _time:
@@ -203,6 +213,7 @@ class Hand(twisted.internet.protocol.Protocol):
             task.jobid + '[' + (task.target if task.target else '__all__') + ']'
         )
         _time[_busy[-1]] = datetime.datetime.now()
+        _handed[_busy[-1]] = (task.timing or {}).get('scheduled')
         return dawgie.pl.message.send(task, self)
 
     def notify(self, keep=None):
@@ -233,6 +244,7 @@ _agency = [None]
 _busy = []
 _cloud = []
 _cluster = []
+_handed = {}
 _time = {}
 _workers = []
 
@@ -316,6 +328,7 @@ def clear():
     _busy.clear()
     _cloud.clear()
     _cluster.clear()
+    _handed.clear()
     _jobs.clear()
     _time.clear()
     _workers.clear()
